@@ -15,6 +15,7 @@ import pymbolic.mapper as mapmod
 
 from ..core import check, short
 from ..gen import expr as G
+from ..gen import scale
 from ..mon import streams
 from ..mon.trace import HandlerTrace
 from ..mon.typedkeys import KF_TWINS, has_twins, refkeys, typed
@@ -170,7 +171,17 @@ def c_effects(ctx, case):
             if missing:
                 ctx.fail("C02.effects", case, f"{name}:read-missing",
                          f"expr={e} env={_envs(env)} never read {sorted(missing)}")
-            cgot, cwant = _multiset(calls), _multiset(log.calls)
+            # how often: keywords compared as a set (g(z, j=y, k=x) and g(z, k=x, j=y) are
+            # equal nodes, the memoizing evaluator may evaluate either one for both) ...
+            unord = lambda cs: [(f_, a_, tuple(sorted(k_))) for f_, a_, k_ in cs]  # noqa: E731
+            cgot, cwant = _multiset(unord(calls)), _multiset(unord(log.calls))
+            # ... in which ORDER the keywords arrive: one of the orders the tree holds
+            held = _multiset(log.calls)
+            stray = [c for c in _multiset(calls) if c not in held]
+            if stray:
+                ctx.fail("C02.effects", case, f"{name}:keyword-order",
+                         f"expr={e} env={_envs(env)}: call {stray[0]} hands over its keywords in "
+                         f"an order no call node of the expression has; entitled {log.calls}")
             over = {k: v for k, v in cgot.items() if v > cwant.get(k, 0)}
             never = [k for k in cwant if k not in cgot]
             if over or never:
@@ -406,6 +417,45 @@ def workload(ctx):
                              s=rng.choice([0, 1, 2]), t=rng.choice([True, False]))
             ctx.case(("stream", i), True, n=0)
             ctx.run("C02.stream", (rng.getrandbits(32), rng.randint(20, 120), env))
+        # 4c. scale: n-ary nodes of 9 .. 130 operands, long chains of one binary operator,
+        #     constants beyond 2**31 / 2**53 / 2**63 / 10**18
+        X, Y, Z = (p.Variable(n) for n in "xyz")
+        for w in scale.WIDTHS:
+            if not ctx.mine("wide"):
+                continue
+            for cls in (p.Sum, p.Product, p.Min, p.Max, p.BitwiseOr, p.BitwiseXor, p.BitwiseAnd,
+                        p.LogicalOr, p.LogicalAnd):
+                if cls in (p.LogicalOr, p.LogicalAnd):
+                    ops = [rng.choice([p.Comparison(X, "<", i), p.Variable("t"), True, False,
+                                       p.Comparison(Y, "!=", i % 3)]) for i in range(w)]
+                else:
+                    ops = [rng.choice([X, Y, Z, 2, 3, -1, -2, 5, p.Sum((X, i)), i + 2])
+                           for i in range(w)]
+                e = cls(tuple(ops))
+                ctx.case(("wide", normal.typed_key(e)), True, n=0)
+                ctx.count("wide_nodes")
+                for _ in range(2):
+                    env = G.base_env(rng.choice([-2, -1, 1, 2, 3]), rng.choice([-2, 1, 3]),
+                                     rng.choice([-1, 2]), s=1, t=rng.choice([True, False]))
+                    ctx.run("C02.eval", (e, env, True))
+            for cls, leaves in ((p.Sum, None), (p.Quotient, None), (p.FloorDiv, None),
+                                (p.Remainder, None), (p.Power, None), (p.LeftShift, None)):
+                n = min(w, 40)
+                if cls is p.Sum:
+                    e = scale.chain(lambda a, b: p.Sum((a, b)), n,
+                                    [rng.choice([X, Y, 1, -3, scale.big(rng)]) for _ in range(n + 1)],
+                                    right=rng.random() < 0.5)
+                elif cls is p.Power:    # ((x**1)**2)**1 ...: bounded magnitude
+                    e = scale.chain(p.Power, min(n, 12), [X] + [rng.choice([1, 1, 2]) for _ in range(12)])
+                elif cls is p.LeftShift:
+                    e = scale.chain(p.LeftShift, n, [X] + [rng.choice([0, 1, 2]) for _ in range(n)])
+                else:
+                    e = scale.chain(cls, n, [p.Sum((X, scale.big(rng, False)))]
+                                    + [rng.choice([3, 7, -2, p.Sum((Y, 5))]) for _ in range(n)])
+                ctx.case(("chain", normal.typed_key(e)), True, n=0)
+                ctx.count("long_chains")
+                env = G.base_env(rng.choice([-2, 1, 2, 3]), rng.choice([-2, 1, 3]), 1)
+                ctx.run("C02.eval", (e, env, True))
         # 5. containers at top level (plain evaluator), NaN nodes
         for i in range(ctx.per_shard(ctx.pick(200, 4000))):
             gen.pool = {"int": [], "num": [], "bool": []}
@@ -484,6 +534,8 @@ def workload(ctx):
     ctx.floor("outcome:unk", 50)
     ctx.floor("effect_reads", 500)
     ctx.floor("effect_calls", 100)
+    ctx.floor("wide_nodes", 200)
+    ctx.floor("long_chains", 100)
     ctx.floor("stream:rows", 500)
     ctx.floor("stream:row_address_reused", 100)
     for h in ("map_sum", "map_product", "map_floor_div", "map_remainder", "map_power",
